@@ -148,6 +148,46 @@ def parse (s : St) (line : String) : Except String (Option Op) :=
   | ["dereg_tmr", h, ns] => do
     let m ← h? h
     match ns.toNat? with | some ns => pure (some (.deregSrc m (ns > 0) .tmr ns)) | none => .error "bad-op"
+  | ["reg_sgn", h, n, fl, u] => do
+    let m ← h? h
+    match n.toNat?, idNat 'u' u with
+    | some n, some u =>
+      let (p, bits) := prioOf fl
+      pure (some (.regSrc m (n > 0) { kind := .sgn, owner := m, key := n, prio := p.getD .norm, oneshot := fl.contains 'o', userptr := u } bits))
+    | _, _ => .error "bad-op"
+  | ["dereg_sgn", h, n] => do
+    let m ← h? h
+    match n.toNat? with | some n => pure (some (.deregSrc m (n > 0) .sgn n)) | none => .error "bad-op"
+  | ["reg_pid", h, i, fl, u] => do
+    let m ← h? h
+    match i.toNat?, idNat 'u' u with
+    | some i, some u =>
+      let (p, bits) := prioOf fl
+      pure (some (.regSrc m (i ≥ 1 && i ≤ 3) { kind := .pid, owner := m, key := i, prio := p.getD .norm, oneshot := fl.contains 'o', userptr := u } bits))
+    | _, _ => .error "bad-op"
+  | ["dereg_pid", h, i] => do
+    let m ← h? h
+    match i.toNat? with | some i => pure (some (.deregSrc m (i ≥ 1 && i ≤ 3) .pid i)) | none => .error "bad-op"
+  | ["reg_path", h, i, fl, u] => do
+    let m ← h? h
+    match i.toNat?, idNat 'u' u with
+    | some i, some u =>
+      let (p, bits) := prioOf fl
+      pure (some (.regSrc m (i ≥ 1 && i ≤ 3) { kind := .path, owner := m, key := i, prio := p.getD .norm, oneshot := fl.contains 'o', userptr := u } bits))
+    | _, _ => .error "bad-op"
+  | ["dereg_path", h, i] => do
+    let m ← h? h
+    match i.toNat? with | some i => pure (some (.deregSrc m (i ≥ 1 && i ≤ 3) .path i)) | none => .error "bad-op"
+  | ["reg_thr", h, a, b, fl, u] => do
+    let m ← h? h
+    match a.toNat?, b.toNat?, idNat 'u' u with
+    | some a, some b, some u =>
+      let (p, bits) := prioOf fl
+      pure (some (.regSrc m (a > 0 || b > 0) { kind := .thresh, owner := m, key := a * 16 + b, prio := p.getD .norm, oneshot := fl.contains 'o', userptr := u } bits))
+    | _, _, _ => .error "bad-op"
+  | ["dereg_thr", h, a, b] => do
+    let m ← h? h
+    match a.toNat?, b.toNat? with | some a, some b => pure (some (.deregSrc m (a > 0 || b > 0) .thresh (a * 16 + b))) | _, _ => .error "bad-op"
   | ["srclen", h] => do let m ← h? h; pure (some (.srcLen m))
   | ["unref", h] => do let m ← h? h; pure (some (.unref m))
   | ["make_ready", _] => .ok none
